@@ -898,7 +898,7 @@ func honestComponents(a *hx.Args, res *hx.Result, thorough bool) {
 					same bool
 				}{{"plus1", add(orig, b1), false}, {"random", randBelow(rng, n), false}, {"shift", add(orig, c.mod), true}, {"negmod", sub(c.mod, orig), c.neg}}
 				for _, al := range alts {
-					if !thorough && al.kind != "plus1" && i%7 != int(a.Seed%7) {
+					if al.kind != "plus1" && ((!thorough && i%7 != int(a.Seed%7)) || (thorough && len(*c.resp) > 100 && i%5 != int(a.Seed%5))) {
 						continue
 					}
 					(*c.resp)[i] = al.v
